@@ -59,6 +59,8 @@ def schedule(draw, tier="quick"):
         elif k == "restart":
             # the new instance may receive the image of its bets BEFORE the first market data of that market
             op["orders_first"] = draw(st.booleans())
+            # ... and may register its second strategy only after the first image was processed
+            op["staged"] = draw(st.booleans())
         ops.append(op)
     return {"ops": ops, "async": draw(st.integers(0, 3)) == 0, "strategies": draw(st.sampled_from([["S"], ["S", "T"]]))}
 
@@ -76,8 +78,9 @@ class Driver:
         self.adopted_checked = False
         self.start()
 
-    def start(self, feed=True):
-        self.lab = livedouble.LiveLab([self.spec], strategies=self.c["strategies"], async_place=self.c["async"], exchange=self.exchange)
+    def start(self, feed=True, defer=False):
+        names = self.c["strategies"][:1] if defer else self.c["strategies"]
+        self.lab = livedouble.LiveLab([self.spec], strategies=names, async_place=self.c["async"], exchange=self.exchange)
         if feed:
             self.feed_market()
         self.orders = []
@@ -203,7 +206,7 @@ class Driver:
             elif k == "quiesce":
                 self.quiesce()
             elif k == "restart":
-                self.restart(op.get("orders_first", False))
+                self.restart(op.get("orders_first", False), op.get("staged", False))
             elif k == "foreign":
                 self.foreign_bet(op.get("other_market", False))
         except FlumineException:
@@ -222,16 +225,24 @@ class Driver:
         b.ref = instr["customerOrderRef"]
         self.classes.add("unknown-strategy-bet")
 
-    def restart(self, orders_first=False):
+    def restart(self, orders_first=False, staged=False):
         """crash: everything local is lost; a new instance subscribes and gets the image of the executable bets"""
         self.lab.close()
+        staged = staged and len(self.c["strategies"]) > 1
+        if staged:
+            self.classes.add("restart-second-strategy-registered-after-first-image")
         if orders_first:
             # the order stream delivers its image before the market stream delivered anything for the market: the
             # bets are adopted into a market that has no market book yet, then the market data arrives
-            self.start(feed=False)
+            self.start(feed=False, defer=staged)
             self.take_snap(full=True, only_executable=True)
             while self.snaps:
                 self.process_snap()
+            if staged:
+                self.lab.add_strategy(self.c["strategies"][1])
+                self.take_snap(full=True, only_executable=True)
+                while self.snaps:
+                    self.process_snap()
             self.hook("restart:image-before-market-data")
             pre = list(self.local_orders())
             self.feed_market()
@@ -244,7 +255,13 @@ class Driver:
             if pre:
                 self.classes.add("restart-orders-adopted-before-market-data")
         else:
-            self.start()
+            self.start(defer=staged)
+            if staged:
+                # the bets of the strategy not yet registered are unknown at first and must be adopted once it is
+                self.take_snap(full=True, only_executable=True)
+                while self.snaps:
+                    self.process_snap()
+                self.lab.add_strategy(self.c["strategies"][1])
         self.take_snap(full=True, only_executable=True)
         while self.snaps:
             self.process_snap()
